@@ -83,6 +83,21 @@ def run_check(prop, tier, seed, args):
         ctx.workdir = wd
         if args.replay:
             obj = json.load(open(args.replay))
+            if "no_longer_checks" in obj:
+                # a violation without a failing input: the file names the obligations / correspondences that broke
+                for w in obj["no_longer_checks"]:
+                    print("REPLAY property=%s recorded: %s" % (prop, w))
+                bad = 0
+                for d in obj.get("diffs", []):
+                    try:
+                        ok, msg = mod.replay(ctx, d)
+                    except (KeyError, TypeError):
+                        ok, msg = True, "correspondence case (not replayable as a property input)"
+                    bad += 0 if ok else 1
+                    print(("REPLAY property=%s reproduces: " % prop if not ok else "REPLAY property=%s does not fail: " % prop) + msg)
+                print("REPLAY property=%s: run ./check %s to re-check the obligations against the current tree" % (prop, prop))
+                return 1 if bad else 0
+            obj = obj.get("replay", obj)
             ok, msg = mod.replay(ctx, obj)
             print(("REPLAY property=%s reproduces: " % prop if not ok else "REPLAY property=%s does not fail: " % prop) + msg)
             return 1 if not ok else 0
@@ -103,7 +118,7 @@ def run_check(prop, tier, seed, args):
             audit = {"ok": True, "obligations": len(common.property_theorems().get(prop, {}).get("theorems", [])),
                      "discharged": 0, "failures": [], "theorems": {}, "build_s": 0}
         else:
-            audit = common.lean_build_and_audit(prop)
+            audit = common.lean_build_and_audit(prop, recheck=(tier == "thorough"))
         ctx.audit = audit
         model_ok = audit.get("model_ok", True)
 
@@ -173,6 +188,7 @@ def run_check(prop, tier, seed, args):
             "wall_s": round(wall, 2),
             "violations": nviol,
             "lean_build_s": audit.get("build_s"),
+            "leanchecker": audit.get("leanchecker", "not run (quick tier)"),
             "notes": ctx.notes,
         }
         if not args.no_build:          # the debug mode proves nothing: it leaves the evidence of the last full run in place
